@@ -5,7 +5,7 @@ use super::*;
 use super::vx_kani_k_api_roa::any_payload;
 
 #[kani::proof]
-#[kani::unwind(3)]
+#[kani::unwind(18)]
 fn k_updates_all_entries_get_explicit_max_length() {
     let a = any_payload();
     let r = any_payload();
